@@ -79,6 +79,12 @@ type op struct {
 	// semantic: byte equality with the sequential result is not required (randomness the harness cannot key by task);
 	// check validates the concurrent result instead.
 	check func(sh *shared, out []byte) error
+	// soft: for operations whose result legitimately depends on randomness (encryption, randomized signing, key
+	// generation) a result that differs from the run-alone result is not yet a finding — the library may hand the
+	// tasks their random bytes from a shared, correctly synchronised pool, so that which task gets which bytes depends
+	// on the schedule. soft then decides: the result must still be a right one (the recipient accepts it and recovers
+	// the input; the generated key is well formed).
+	soft func(sh *shared, out []byte) error
 }
 
 type shared struct {
@@ -463,6 +469,7 @@ func runSched(t *rapid.T) {
 		return s, got, ev, races
 	}
 	monitoringDiffers := false
+	softDiffers := false
 	// judge compares one concurrent execution with the sequential oracle; "" = agrees
 	judge := func(s *simsched.Sched, got [][]result, ev [][]simmon.Event) (string, string) {
 		kt := sh.class + "/" + sh.entry.KeyType
@@ -495,6 +502,13 @@ func runSched(t *rapid.T) {
 							return "C18/result-invalid:" + kt + ":" + opClass(o.name), fmt.Sprintf("task %d op %s: concurrent result is not accepted by the recipient: %v", i, o.name, err)
 						}
 					}
+					continue
+				}
+				if !bytes.Equal(e.out, c.out) && o.soft != nil && !c.err {
+					if err := o.soft(sh, c.out); err != nil {
+						return "C18/result-invalid:" + kt + ":" + opClass(o.name), fmt.Sprintf("task %d op %s: the result under the schedule differs from the result when run alone and is not accepted by the recipient: %v", i, o.name, err)
+					}
+					softDiffers = true
 					continue
 				}
 				if !bytes.Equal(e.out, c.out) {
@@ -593,6 +607,9 @@ func runSched(t *rapid.T) {
 	}
 	if monitoringDiffers {
 		r.Count("monitoring-events-differ-under-schedule", 1)
+	}
+	if softDiffers {
+		r.Count("randomized-result-differs-from-run-alone(recipient accepts)", 1)
 	}
 	if racesAfter > racesBefore {
 		loc, text := lastRaceReport()
@@ -730,8 +747,10 @@ func drawOp(t *rapid.T, r *core.Run, g *simrng.RNG, sh *shared, scenario, label 
 	case "produce":
 		msg, aux := slice(t, label+"msg"), slice(t, label+"aux")
 		o := op{name: "produce", run: func(sh *shared) ([]byte, error) { return sh.prod.Produce(msg, aux) }}
-		if sh.semantic || (!sh.prod.Deterministic && false) {
+		if sh.semantic {
 			o.check = func(sh *shared, out []byte) error { return sh.acc.Accept(out, msg, aux) }
+		} else if !sh.prod.Deterministic && sh.acc != nil {
+			o.soft = func(sh *shared, out []byte) error { return sh.acc.Accept(out, msg, aux) }
 		}
 		return o
 	case "accept":
@@ -784,7 +803,11 @@ func drawOp(t *rapid.T, r *core.Run, g *simrng.RNG, sh *shared, scenario, label 
 		r.Probe("construct-under-schedule")
 		msg, aux := slice(t, label+"msg"), slice(t, label+"aux")
 		pre := sh.outputs[0]
-		return op{name: "construct", run: func(sh *shared) ([]byte, error) {
+		var softC func(sh *shared, out []byte) error
+		if !sh.semantic && !sh.prod.Deterministic && sh.acc != nil {
+			softC = func(sh *shared, out []byte) error { return sh.acc.Accept(out, msg, aux) }
+		}
+		return op{name: "construct", soft: softC, run: func(sh *shared) ([]byte, error) {
 			if sh.acc != nil {
 				a, err := classes.NewAcceptor(sh.class, sh.h)
 				if err != nil {
@@ -810,7 +833,11 @@ func drawOp(t *rapid.T, r *core.Run, g *simrng.RNG, sh *shared, scenario, label 
 		r.Probe("reparse-construct-under-schedule")
 		msg, aux := slice(t, label+"msg"), slice(t, label+"aux")
 		pre := sh.outputs[0]
-		return op{name: "reparse-construct", run: func(sh *shared) ([]byte, error) {
+		var softR func(sh *shared, out []byte) error
+		if !sh.semantic && !sh.prod.Deterministic && sh.acc != nil {
+			softR = func(sh *shared, out []byte) error { return sh.acc.Accept(out, msg, aux) }
+		}
+		return op{name: "reparse-construct", soft: softR, run: func(sh *shared) ([]byte, error) {
 			var opts []keyset.Option
 			if sh.monitored {
 				opts = append(opts, keyset.WithAnnotations(map[string]string{"sim": "sched"}))
@@ -932,14 +959,17 @@ func drawOp(t *rapid.T, r *core.Run, g *simrng.RNG, sh *shared, scenario, label 
 		g.SetOffset(14, off+5000)
 		b, errB := gen(sh)
 		g.SetOffset(14, off)
+		wellFormed := func(sh *shared, out []byte) error {
+			if i := bytes.IndexByte(out, ':'); i <= 0 || len(out) <= i+1 {
+				return fmt.Errorf("generated key is empty")
+			}
+			return nil
+		}
 		if errA != nil || errB != nil || !bytes.Equal(a, b) {
 			r.Probe("keygen-not-a-function-of-the-reader(semantic oracle)")
-			o.check = func(sh *shared, out []byte) error {
-				if i := bytes.IndexByte(out, ':'); i <= 0 || len(out) <= i+1 {
-					return fmt.Errorf("generated key is empty")
-				}
-				return nil
-			}
+			o.check = wellFormed
+		} else {
+			o.soft = wellFormed
 		}
 		return o
 	}
